@@ -328,6 +328,13 @@ def replay_and_validate(ctx, binp, script_path, tag, nchunks, timeout):
         consumed += r["consumed"]
         for v in r["viols"]:
             v["chunk"] = os.path.basename(fp)
+            # The agent's private bookkeeping (nodeCfg/groupCfg/currentCfg) is not part of the property: a step whose
+            # only difference from the specification is internal state is mechanism DRIFT, not a violation (a refactoring
+            # that keeps the delivered sequence must not raise an alarm).  Any observable consequence shows up as
+            # notify-missing / notify-unexpected or in one of the five property predicates.
+            if v.get("pred") == "Next" and str(v.get("sig", "")).startswith("state-"):
+                DRIFT.append(v)
+                continue
             viols.append(v)
     for fp in files:
         os.remove(fp)
@@ -432,6 +439,9 @@ ASSUMPTIONS = [
     "a fatal notify error (log.Fatalf -> process exit) is not exercised; non-fatal notify errors are",
     "objects that are not metav1.Object, watch (re)creation and the node watch (group membership changes) are outside the model",
 ]
+
+
+DRIFT = []
 
 
 def check_trace_preds(viols):
